@@ -246,4 +246,10 @@ def r16_6(ctx):
         ctx.ob("R16.6", f"borrowing-site:{short(f.id)}:{t['callee'].rsplit('::', 1)[-1]}", ok, f.loc(t["ln"]), "borrowing visit is made by a function of the in-place parser only" if ok else "borrowing visit is reachable from the copying parser")
 
 
-RULES = [("R16.1", r16_1), ("R16.2", r16_2), ("R16.3", r16_3), ("R16.4", r16_4), ("R16.5", r16_5), ("R16.6", r16_6)]
+def r16_w(ctx):
+    """type-level witnesses (compile_fail doctests with error codes, each with a compiling twin)"""
+    from ..core import witness_obligations
+    witness_obligations(ctx, "R16.W", [('W4OwnedAreStatic', "Value and OwnedLazyValue are 'static + Send + Sync, LazyValue<'a> is not 'static"), ('W6AllocNeedsMut', 'the bump allocator needs &mut Shared')])
+
+
+RULES = [("R16.1", r16_1), ("R16.2", r16_2), ("R16.3", r16_3), ("R16.4", r16_4), ("R16.5", r16_5), ("R16.6", r16_6), ("R16.W", r16_w)]
